@@ -1941,6 +1941,9 @@ class H2Connection:
         if SettingCodes.MAX_FRAME_SIZE in changes:
             setting = changes[SettingCodes.MAX_FRAME_SIZE]
             self.max_inbound_frame_size = setting.new_value
+            # Frames that follow the ACK in the same receive_data call are
+            # already subject to the new limit.
+            self.incoming_buffer.max_frame_size = setting.new_value
 
         if SettingCodes.HEADER_TABLE_SIZE in changes:
             setting = changes[SettingCodes.HEADER_TABLE_SIZE]
